@@ -402,6 +402,9 @@ def check_main(args):
           f"distinct_sigs={len(m['sigs'])} nontrivial={len(m['nontrivial_sigs'])} "
           f"faults={m['faults']} wall={wall:.1f}s", flush=True)
     inc = st.get("inconclusive", 0)
+    for h in m["inconclusive"][:2]:
+        print(f"[{cid}] inconclusive run index={h['index']}: {h['signature']} {str(h['detail'])[:300]} "
+              f"knobs={h['knobs']}", flush=True)
     if m["runs"] and inc / m["runs"] > 0.01:
         print(f"HARNESS: {inc} of {m['runs']} runs inconclusive (>1%)", file=sys.stderr)
         rc = max(rc, 2)
